@@ -263,7 +263,22 @@ impl SubCheck for LawSub {
             (Err(x), Err(y)) => chk!(o, x.kind() == y.kind(), "C05/laws/round/default-mode-error-kind", kind_name(y.kind()), kind_name(x.kind())),
             (x, y) => o = o.fail("C05/laws/round/default-mode-verdict", format!("{:?}", y.map(|d| dt_of(&d)).map_err(|e| err_str(&e))), format!("{:?}", x.map(|d| dt_of(&d)).map_err(|e| err_str(&e)))),
         }
-        o.class("law:default rounding mode")
+        o = o.class("law:default rounding mode");
+        // (3) rounding does not touch the calendar: the non-ISO twin rounds to the same ISO fields and keeps its calendar
+        match (a.round(explicit), ac.round(explicit)) {
+            (Ok(x), Ok(y)) => {
+                chk!(o, dt_of(&x) == dt_of(&y), "C05/laws/round/calendar-dependent-value", format!("{:?}", dt_of(&x)), format!("{:?}", dt_of(&y)));
+                chk!(o, y.calendar().identifier() == ac.calendar().identifier(), "C05/laws/round/calendar-lost", ac.calendar().identifier(), y.calendar().identifier());
+            }
+            (Err(x), Err(y)) => chk!(o, x.kind() == y.kind(), "C05/laws/round/calendar-dependent-error-kind", kind_name(x.kind()), kind_name(y.kind())),
+            (x, y) => o = o.fail("C05/laws/round/calendar-dependent-verdict", format!("{:?}", x.map(|d| dt_of(&d)).map_err(|e| err_str(&e))), format!("{:?}", y.map(|d| dt_of(&d)).map_err(|e| err_str(&e)))),
+        }
+        // the same for add: result keeps the calendar
+        let one_day = duration_from_f64s(&[0.0, 0.0, 0.0, 1.0, 0.0, 0.0, 0.0, 0.0, 0.0, 1.0]).expect("duration");
+        if let (Ok(x), Ok(y)) = (a.add(&one_day, None), ac.add(&one_day, None)) {
+            chk!(o, dt_of(&x) == dt_of(&y) && y.calendar().identifier() == ac.calendar().identifier(), "C05/laws/add/calendar-dependent", format!("{:?} {}", dt_of(&x), ac.calendar().identifier()), format!("{:?} {}", dt_of(&y), y.calendar().identifier()));
+        }
+        o.class("law:rounding and adding keep the calendar")
     }
 }
 
